@@ -17,7 +17,7 @@ class In(io.BytesIO):
     pass
 
 
-MAX_BODY = 64
+MAX_BODY = 400
 
 # how the handler touches the request body (after its statements, before its outcome)
 def _pre_body(app):
@@ -33,14 +33,39 @@ def _pre_reqerr(app):
     app.request._raise(RequestError('synthetic'), RequestError)
 
 
-PRE = {'body': _pre_body, 'json': _pre_json, 'reqerr': _pre_reqerr}
+def _pre_upload(app):
+    """reads the multipart form: answers with a description of every field and upload, part headers
+    and content type included"""
+    forms, files = app.request.forms, app.request.files
+    out = []
+    for k in sorted(forms.keys()):
+        out.append(f'form {k}={forms[k]!r}')
+    for k in sorted(files.keys()):
+        v = files[k]
+        for f in (v if isinstance(v, list) else [v]):
+            out.append(f'file {k} fn={f.raw_filename!r} ct={f.content_type!r} cl={f.content_length} '
+                       f'hdrs={sorted(f.headers.items())!r} data={f.file.read()!r}')
+    return '\n'.join(out) or 'nothing'
+
+
+PRE = {'body': _pre_body, 'json': _pre_json, 'reqerr': _pre_reqerr, 'upload': _pre_upload}
+
+
+def multipart_body(boundary, parts):
+    out = []
+    for name, filename, ctype, extra, content in parts:
+        disp = f'Content-Disposition: form-data; name="{name}"' + (f'; filename="{filename}"' if filename else '')
+        lines = [disp] + ([f'Content-Type: {ctype}'] if ctype else []) + [f'{k}: {v}' for k, v in extra]
+        out.append(('--' + boundary + '\r\n' + '\r\n'.join(lines) + '\r\n\r\n').encode('ascii') + content + b'\r\n')
+    out.append(('--' + boundary + '--\r\n').encode('ascii'))
+    return b''.join(out)
 
 # body-error kinds: (pre, request body, extra environ, class raised through BaseRequest._raise)
 BODY_KINDS = {
     'chunked-garbage': ('body', b'zz\r\nxx', {'HTTP_TRANSFER_ENCODING': 'chunked'}, 'BodyParsingError'),
     'chunked-truncated': ('body', b'5\r\nab', {'HTTP_TRANSFER_ENCODING': 'chunked'}, 'BodyParsingError'),
-    'oversize': ('body', b'x' * 100, {'CONTENT_LENGTH': '100'}, 'BodySizeError'),
-    'oversize-chunked': ('body', b'50\r\n' + b'y' * 0x50 + b'\r\n0\r\n\r\n', {'HTTP_TRANSFER_ENCODING': 'chunked'},
+    'oversize': ('body', b'x' * 500, {'CONTENT_LENGTH': '500'}, 'BodySizeError'),
+    'oversize-chunked': ('body', b'1f5\r\n' + b'y' * 0x1f5 + b'\r\n0\r\n\r\n', {'HTTP_TRANSFER_ENCODING': 'chunked'},
                          'BodySizeError'),
     'bad-json': ('json', b'{x', {'CONTENT_LENGTH': '2', 'CONTENT_TYPE': 'application/json'}, 'BodyParsingError'),
     'request-error': ('reqerr', b'', {}, 'RequestError'),
@@ -48,7 +73,7 @@ BODY_KINDS = {
 }
 
 KINDS = ['ok-text', 'ok-cookie', 'ok-zoo', 'nf', 'na', 'badpath', 'crash', 'raise-resp', 'ret-error', 'head',
-         'iterable', 'cookie-then-body-error'] + list(BODY_KINDS)
+         'iterable', 'cookie-then-body-error', 'upload', 'upload'] + list(BODY_KINDS)
 
 
 def gen_hreq(g, rng, rid, kind=None, spec=None):
@@ -91,6 +116,23 @@ def gen_hreq(g, rng, rid, kind=None, spec=None):
         req['method'] = 'HEAD'
     elif kind == 'iterable':
         req['route'] = ('h', [], ('ret', ('it', g.nid(), True, [('e', None), ('t', 'a'), ('t', 'b%d' % rid)], 'cls')))
+    elif kind == 'upload':
+        parts = []
+        for j in range(rng.choice([1, 2, 3])):
+            if rng.random() < .75:
+                parts.append((rng.choice(['f', 'g', 'doc']), rng.choice(['a.txt', 'b.bin', 'c d.txt']),
+                              rng.choice([None, None, 'text/plain', 'application/octet-stream']),
+                              rng.choice([[], [], [('X-P%d' % rid, 'v%d' % j)], [('Content-Transfer-Encoding', 'binary')],
+                                          [('X-Note', 'n%d' % rid), ('X-P%d' % (rid % 7), 'w')]]),
+                              rng.choice([b'hello', b'', b'x' * 20, b'\xff\x00', b'r%d' % rid])))
+            else:
+                parts.append((rng.choice(['t', 'u']), None, None, [], rng.choice([b'text', b'', b'v%d' % rid])))
+        boundary = 'bnd%d' % rid
+        body = multipart_body(boundary, parts)
+        extra = {'CONTENT_TYPE': 'multipart/form-data; boundary=' + boundary, 'CONTENT_LENGTH': str(len(body))}
+        pre = 'upload'
+        req['route'] = ('h', [ck()] if rng.random() < .3 else [], ('ret', ('t', 'upload-description')))
+        req['method'] = 'POST'
     elif kind == 'cookie-then-body-error':
         k = rng.choice([x for x in BODY_KINDS if BODY_KINDS[x][3]])
         pre, body, extra, bodyerr = BODY_KINDS[k]
@@ -184,7 +226,11 @@ def show(resp):
 
 
 def ser_hreq(h, urlrepr):
-    return zoo.ser_req(h['req'], urlrepr) + [h['bodyerr'] or '-']
+    req = h['req']
+    if h.get('said') is not None:
+        # what the handler read from the request, as a pristine process reports it
+        req = dict(req, route=('h', req['route'][1], ('ret', ('t', h['said']))))
+    return zoo.ser_req(req, urlrepr) + [h['bodyerr'] or '-']
 
 
 def fixed_app(g, rng):
@@ -251,6 +297,18 @@ class C09(Check):
             hist.append(gen_hreq(g, rng, i + 1, kind, spec))
         return hist
 
+    def describe_uploads(self, hist):
+        """for requests whose handler answers with what it read (uploads): obtain that text from a
+        pristine process, served on an application without hooks, for the model's line"""
+        ups = [h for h in hist if h['pre'] == 'upload']
+        if not ups:
+            return
+        plain = [dict(h, req=dict(h['req'], route=('h', [], h['req']['route'][2]), json=False)) for h in ups]
+        for h, r in zip(ups, self.reference().serve(dict(before=[], after=[], errh=[]), plain)):
+            if r[0] != '200 OK':
+                raise core.Infra(f'upload reference answered {r[0]}')
+            h['said'] = r[2].decode('utf8')
+
     def run_history(self, spec, hist, retention=False):
         srv = Server(spec)
         keep = [] if retention else None
@@ -266,12 +324,19 @@ class C09(Check):
         return outs, urls, live
 
     def corr(self, rng, n):
+        try:
+            return self._corr(rng, n)
+        finally:
+            self.close_reference()
+
+    def _corr(self, rng, n):
         out = []
         stats = self.stats = dict(histories=0, requests=0, kinds={}, lengths={}, statuses={}, retention_runs=0)
         g = zoo.Gen(rng)
         for _ in range(n):
             spec = fixed_app(g, rng)
             hist = self.gen_history(g, rng, spec)
+            self.describe_uploads(hist)
             outs, urls, live = zoo.watchdog(lambda: self.run_history(spec, hist, retention=True), 60)
             toks = zoo.ser_app(spec) + [str(len(hist))]
             for h, u in zip(hist, urls):
